@@ -562,3 +562,206 @@ def run_multiclient_cfg(ctx: Ctx):
         I.overrides.pop(f'{PR}.find_fqn', None)
         for n in ('dznpy.scoping.namespaceids_t', 'dznpy.scoping.ns_ids_t', 'dznpy.scoping.NamespaceIds.__add__'):
             I.overrides.pop(n, None)
+
+
+# ============================================================== create_dzn_elements: any number of ports (C03 C07 C13)
+LIBRARY_ERRORS = ('AdvShellError', 'MultiClientCfgError', 'FindError')
+
+
+def run_dzn_elements(ctx: Ctx, variants=(('Component', False), ('Component', True), ('System', False), ('System', True))):
+    """create_dzn_elements for a component / system with ANY number of ports.  Callees by contract: NamespaceTree.fqn
+    (C14), find_fqn (C14: the declarations ghost.lookup(name, scope)), PortsCfg.match together with portnames_t (C03: a
+    port name is in the result exactly when its side's configuration covers it, with the value sem(side, name); port
+    names pairwise different), check_multiclient_cfg (proved above: a fixture, None or MultiClientCfgError).
+    Obligations: every path returns or raises a library error; on return the two lists are exactly
+    specs.wiring_unbounded.exposed_ports (every exposed port once, in order, with its one semantics; injected requires
+    ports never), and a configured multi-client port was found."""
+    from pyvc.compare import equal, Mismatch
+    from pyvc.interp import EnumSym, OpaqueV
+    from pyvc.values import DictV, DtV, RaiseSignal
+    from pyvc.path import Path, explore, fresh_name
+    from pyvc.harness import PROVED
+    from props import parse_unbounded
+    I = ctx.interp
+    ghostlib.install(I)
+    A = I.load_module('dznpy.ast')
+    av = I.load_module('dznpy.ast_view')
+    ps = I.load_module('dznpy.adv_shell.port_selection')
+    cm = I.load_module('dznpy.adv_shell.common')
+    ty = I.load_module('dznpy.adv_shell.types')
+    spec = I.load_module('specs.wiring_unbounded')
+    RS = ty.globals['RuntimeSemantics']
+    rs_sort = I.sorts.sort_of_enum(RS)[0]
+    PortD = A.globals['PortDirection']
+    ghost_lookup = I.overrides['specs.ghost.lookup']
+    saved = dict(I.class_invs)
+    I.class_invs['dznpy.scoping.NamespaceIds'] = [ns_inv]
+    I.extra_model_classes = ('dznpy.adv_shell.common.MultiClientPortCfgFixture',)
+    FX = cm.globals['MultiClientPortCfgFixture']
+    fn = f'{PR}.create_dzn_elements'
+    SEM = {s: z3.Function(f'ghost.port_semantics.{s}', z3.StringSort(), rs_sort) for s in ('provides', 'requires')}
+    COV = {s: z3.Function(f'ghost.covered.{s}', z3.StringSort(), z3.BoolSort()) for s in ('provides', 'requires')}
+    state = {}
+
+    def find_fqn_contract(i, path, args, kw):
+        fct, ids = args[0], args[1]
+        scope = args[2] if len(args) > 2 else kw['as_of_inner_scope']
+        return ObjV(av.globals['FindResult'], {'items': ghost_lookup(i, path, [fct, ids, scope], {})})
+
+    def match_contract(i, path, args, kw):
+        out = z3.Int(fresh_name('match_outcome'))
+        if not path.branch(out == 0):
+            raise RaiseSignal(i.call(ty.globals['AdvShellError'], ['configured port names not matched'], {}, path))
+        d = DictV(dom=z3.Const(fresh_name('matched_dom'), z3.SetSort(z3.StringSort())),
+                  val=z3.Const(fresh_name('matched_val'), z3.ArraySort(z3.StringSort(), rs_sort)),
+                  val_wrap=lambda v: EnumSym(RS, v))
+        ports = state['ports']
+        nm = I.sorts.accessor(A.globals['Port'], 'name')
+        dr = I.sorts.accessor(A.globals['Port'], 'direction')
+        j = z3.Int(fresh_name('j'))
+        n = nm(ports[j])
+        prov = dr(ports[j]) == I.sorts.enum_const(PortD.members['PROVIDES'])
+        path.add_hyp([j], z3.Implies(z3.And(j >= 0, j < z3.Length(ports)), z3.And(
+            z3.IsMember(n, d.dom) == z3.If(prov, COV['provides'](n), COV['requires'](n)),
+            z3.Implies(z3.IsMember(n, d.dom),
+                       z3.Select(d.val, n) == z3.If(prov, SEM['provides'](n), SEM['requires'](n))))),
+            'contract:PortsCfg.match o portnames_t (C03)')
+        path.matched_dom = d.dom
+        return ObjV(ps.globals['MatchedPorts'], {'value': d})
+
+    def mc_key(name, itf):
+        return ops.to_zstr(name), I.to_z3(itf)
+
+    def mc_contract(i, path, args, kw):
+        cfg, name, itf, fct = args
+        if cfg is None:
+            return None
+        zn, zi = mc_key(name, itf)
+        out = z3.Function('outcome.check_multiclient_cfg', zn.sort(), zi.sort(), z3.IntSort())(zn, zi)
+        if path.branch(out == 0):
+            return None
+        if path.branch(out == 1):
+            return DtV(FX, z3.Function('result.check_multiclient_cfg', zn.sort(), zi.sort(),
+                                       I.sorts.sort_of_class(FX))(zn, zi))
+        raise RaiseSignal(i.call(ty.globals['MultiClientCfgError'], ['invalid multi-client settings'], {}, path))
+
+    def ghost_sem(i, path, args, kw):
+        cfg, side, name = args
+        return EnumSym(RS, SEM[side](ops.to_zstr(name)))
+
+    def ghost_fixture(i, path, args, kw):
+        return mc_contract(i, path, args, kw)
+    overrides = {'dznpy.ast_view.find_fqn': find_fqn_contract, f'{PR}.find_fqn': find_fqn_contract,
+                 'dznpy.adv_shell.port_selection.PortsCfg.match': match_contract,
+                 f'{PR}.check_multiclient_cfg': mc_contract, 'specs.ghost.port_semantics': ghost_sem,
+                 'specs.ghost.multiclient_fixture': ghost_fixture}
+    I.overrides.update(overrides)
+    parse_unbounded.install_tree_contracts(I, ctx)
+    f = I.get_function(fn)
+    ctx.functions[fn] = 'proved (any number of ports; callees by contract: fqn, find_fqn, PortsCfg.match, ' \
+                        'check_multiclient_cfg)'
+    ctx.assumptions.append('create_dzn_elements: model validity - the port names of a component are pairwise different '
+                           'and non-empty; PortsCfg.match / portnames_t by their C03 contracts')
+    try:
+        for (enc_cls, with_mc) in variants:
+            if True:
+                tag = f'{enc_cls}{",multiclient" if with_mc else ""}'
+
+                def mk(p, enc_cls=enc_cls, with_mc=with_mc):
+                    enc = I.fresh_dt(A.globals[enc_cls], 'in_enc', p)
+                    ports = I.sorts.accessor(A.globals['Ports'], 'elements')(
+                        I.sorts.accessor(A.globals[enc_cls], 'ports')(enc.expr))
+                    state['ports'] = ports
+                    nm = I.sorts.accessor(A.globals['Port'], 'name')
+                    a, b = z3.Int(fresh_name('u')), z3.Int(fresh_name('u'))
+                    p.add_hyp([a, b], z3.Implies(z3.And(a >= 0, b >= 0, a < z3.Length(ports), b < z3.Length(ports),
+                                                        a != b), nm(ports[a]) != nm(ports[b])), 'unique port names')
+                    p.add_hyp([a], z3.Implies(z3.And(a >= 0, a < z3.Length(ports)), z3.Length(nm(ports[a])) > 0),
+                              'non-empty port names')
+                    mc = symobj.fresh_value(I, p, TypeDesc('cls', ps.globals['MultiClientPortCfg']), 'in_mc') \
+                        if with_mc else None
+                    pcfg = ObjV(ps.globals['PortsCfg'], {'provides': OpaqueV(None, 'provides side'),
+                                                         'requires': OpaqueV(None, 'requires side'), 'multiclient': mc})
+                    cfg = ObjV(cm.globals['Configuration'], {'ports_cfg': pcfg})
+                    fct = OpaqueV(None, 'the file contents (only passed on to find_fqn / check_multiclient_cfg)')
+                    return [cfg, fct, enc], {}
+                res = I.run_function(f, mk)
+                n_ret = 0
+                for k, (p, (kind, val, args)) in enumerate(res):
+                    oid = f'processing.create_dzn_elements[{tag}]:path{k}'
+                    if kind == 'raise':
+                        name = val.cls.name
+                        if name in LIBRARY_ERRORS:
+                            o = ctx.new(oid + ':raises', 'raises', fn, f'rejected with the library error {name}')
+                            ctx.settle(o, PROVED, 'syntactic')
+                            # a rejection for a missing semantics must be about an EXPOSED port: a provides port or a
+                            # requires port that is not injected (valid inputs succeed; injected ports need no semantics)
+                            last = p.conds[-1] if p.conds else None
+                            if name == 'AdvShellError' and last is not None and z3.is_const(last) and \
+                                    str(last).startswith('ex#') and getattr(p, 'matched_dom', None) is not None:
+                                w = z3.Int(str(last) + '.w')
+                                ports = state['ports']
+                                P = A.globals['Port']
+                                prt = ports[w]
+                                exposed = z3.Or(
+                                    I.sorts.accessor(P, 'direction')(prt) == I.sorts.enum_const(PortD.members['PROVIDES']),
+                                    z3.Not(I.sorts.accessor(A.globals['Injected'], 'value')(
+                                        I.sorts.accessor(P, 'injected')(prt))))
+                                pj = p.child()
+                                pj.add_index(w)
+                                ctx.prove(oid + ':justified', 'raises', fn, pj, z3.And(
+                                    w >= 0, w < z3.Length(ports), exposed,
+                                    z3.Not(z3.IsMember(I.sorts.accessor(P, 'name')(prt), p.matched_dom))),
+                                    'a port without semantics is a reason to reject only if it is exposed and its '
+                                    'side of the configuration does not cover it')
+                        else:
+                            msg = ' '.join(str(a)[:100] for a in (val.fields.get('args') or ()))
+                            ctx.prove(oid + ':raises', 'raises', fn, p.child(), False,
+                                      f'internal error {name} ({msg}) instead of a library error')
+                        continue
+                    if kind != 'return':
+                        ctx.prove(oid + ':outcome', 'ensures', fn, p.child(), False, f'unexpected outcome {kind}: {val}')
+                        continue
+                    n_ret += 1
+
+                    def run_spec(q, args=args):
+                        I.ghost_depth += 1
+                        try:
+                            return I.call_function(spec.globals['exposed_ports'], list(args), {}, q)
+                        except RaiseSignal as rs:
+                            return ('spec-undefined', rs.exc)
+                        finally:
+                            I.ghost_depth -= 1
+                    got = (I.getattr_(val, 'provides_ports', p), I.getattr_(val, 'requires_ports', p))
+                    for j, (q, want) in enumerate(explore(p, run_spec, 400)):
+                        if isinstance(want, tuple) and len(want) == 2 and want[0] == 'spec-undefined':
+                            ctx.prove(f'{oid}.{j}:defined', 'ensures', fn, q, False,
+                                      f'the function returns although the specification is undefined here '
+                                      f'({want[1].cls.name}: a port type that does not denote exactly one declaration)')
+                            continue
+                        try:
+                            I.unify_atoms(q)
+                            leaves = equal(I, q, got, want)
+                        except Mismatch as mm:
+                            ctx.prove(f'{oid}.{j}:ensures', 'ensures', fn, q, False,
+                                      f'the exposed ports differ structurally from the specification: {mm}')
+                            continue
+                        if not leaves:
+                            o = ctx.new(f'{oid}.{j}:ensures', 'ensures', fn, 'exposed ports == specification (syntactically)')
+                            ctx.settle(o, PROVED, 'syntactic')
+                        for n_, lf in enumerate(leaves):
+                            ctx.prove(f'{oid}.{j}:ensures.{n_}', 'ensures', fn, lf.path, lf.goal,
+                                      f'every exposed port once, in order, with its interface, its ONE semantics and '
+                                      f'its fixture @ {lf.where}')
+                if n_ret == 0:
+                    ctx.prove(f'processing.create_dzn_elements[{tag}]:some-return', 'ensures', fn, Path(), False,
+                              'vacuity: no path of create_dzn_elements returns')
+    finally:
+        for q in overrides:
+            I.overrides.pop(q, None)
+        for q in ('dznpy.scoping.NamespaceTree.fqn', 'dznpy.scoping.NamespaceTree.fqn_member_name',
+                  'specs.scoping.tree_fqn'):
+            I.overrides.pop(q, None)
+        I.extra_model_classes = ()
+        I.class_invs.clear()
+        I.class_invs.update(saved)
